@@ -95,7 +95,10 @@ MStep(m, e, idx) ==
     [] e.e = "LoopAbandoned" -> [m0 EXCEPT !.gone = @ \cup {e.loop}]
     [] e.e = "Tick" ->
         IF IdleWaiters(m, e.t) # {}
-        THEN [m0 EXCEPT !.bad = Flag(@, "C05", "C05_NoIdleWait", idx)]
+        THEN [m0 EXCEPT !.bad = IF m.cancelled # {} \/ \E i \in DOMAIN m.inv : m.inv[i].st \in {"raise", "cancel"}
+                                  \* C06: a failed / cancelled computation delays nobody beyond a recomputation
+                                  THEN Flag(Flag(@, "C05", "C05_NoIdleWait", idx), "C06", "C06_DelayedBystander", idx)
+                                  ELSE Flag(@, "C05", "C05_NoIdleWait", idx)]
         ELSE m0
     [] e.e = "CallEnd" ->
         LET c == e.c
@@ -121,7 +124,9 @@ MStep(m, e, idx) ==
         \* every call whose loop was not abandoned must have finished
         LET stuck == {c \in m.pend : m.call[c].loop \notin m.gone} IN
         IF stuck # {} \/ e.status # "ok"
-        THEN [m0 EXCEPT !.bad = Flag(@, "C05", "C05_Terminates", idx)]
+        THEN [m0 EXCEPT !.bad = IF m.cancelled # {} \/ \E i \in DOMAIN m.inv : m.inv[i].st \in {"raise", "cancel"}
+                                  THEN Flag(Flag(@, "C05", "C05_Terminates", idx), "C06", "C06_DelayedBystander", idx)
+                                  ELSE Flag(@, "C05", "C05_Terminates", idx)]
         ELSE m0
     [] OTHER -> m0
 =============================================================================
